@@ -29,7 +29,7 @@ func init() {
 				return
 			}
 			x.Release()
-			x.Data["pair"] = pr
+			x.Put("pair", pr)
 			type est struct {
 				id  uint32
 				cc  *grpc.ClientConn
@@ -40,17 +40,17 @@ func init() {
 				ctx, cancel := context.WithTimeout(context.Background(), 20*time.Second)
 				defer cancel()
 				if err := pr.gc.Ping(); err != nil {
-					x.Data["mainfail"] = fmt.Sprintf("%s: main Ping: %v", when, err)
+					x.Put("mainfail", fmt.Sprintf("%s: main Ping: %v", when, err))
 				}
 				if tag, err := pingTag(ctx, pr.g.cc); err != nil {
-					x.Data["mainfail"] = fmt.Sprintf("%s: main PingPong: %v", when, err)
+					x.Put("mainfail", fmt.Sprintf("%s: main PingPong: %v", when, err))
 				} else if tag != "main" {
 					x.Fail("S", "%s: main connection answered by %q", when, tag)
 				}
 				for _, e := range made {
 					tag, err := pingTag(ctx, e.cc)
 					if err != nil {
-						x.Data["earlierfail"] = fmt.Sprintf("%s: earlier brokered connection id %d: %v", when, e.id, err)
+						x.Put("earlierfail", fmt.Sprintf("%s: earlier brokered connection id %d: %v", when, e.id, err))
 					} else if tag != e.tag {
 						x.Fail("S", "%s: earlier connection for id %d answered by %q%s", when, e.id, tag, raceNote(x))
 					}
@@ -74,7 +74,7 @@ func init() {
 					t0 := x.Now()
 					cc, err := db.Dial(id)
 					if err != nil {
-						x.Data[fmt.Sprintf("derr%d", id)] = fmt.Sprintf("Dial: %v", err)
+						x.Put(fmt.Sprintf("derr%d", id), fmt.Sprintf("Dial: %v", err))
 						res <- est{id: id}
 						return
 					}
@@ -84,7 +84,7 @@ func init() {
 					got, err := pingTag(ctx, cc)
 					x.Obs("est%d err=%v tag=%s", id, err != nil, got)
 					if err != nil {
-						x.Data[fmt.Sprintf("derr%d", id)] = fmt.Sprintf("first RPC: %v (after %v)", err, x.Now()-t0)
+						x.Put(fmt.Sprintf("derr%d", id), fmt.Sprintf("first RPC: %v (after %v)", err, x.Now()-t0))
 						cc.Close()
 						res <- est{id: id}
 						return
@@ -130,7 +130,7 @@ func init() {
 						defer close(rd)
 						cc, err := db.Dial(id)
 						if err != nil {
-							x.Data[fmt.Sprintf("derr%d", id)] = fmt.Sprintf("second Dial: %v", err)
+							x.Put(fmt.Sprintf("derr%d", id), fmt.Sprintf("second Dial: %v", err))
 							return
 						}
 						x.OnCleanup(func() { cc.Close() })
@@ -139,7 +139,7 @@ func init() {
 						got, err := pingTag(ctx, cc)
 						x.Obs("redial%d err=%v tag=%s", id, err != nil, got)
 						if err != nil {
-							x.Data[fmt.Sprintf("derr%d", id)] = fmt.Sprintf("first RPC on the second connection: %v", err)
+							x.Put(fmt.Sprintf("derr%d", id), fmt.Sprintf("first RPC on the second connection: %v", err))
 						} else if got != tag {
 							x.Fail("S", "misrouted: second connection dialled for id %d was answered by %q%s", id, got, raceNote(x))
 						}
@@ -149,7 +149,7 @@ func init() {
 				}
 				pingAll(fmt.Sprintf("after establishment %d (%s)", i+1, e))
 			}
-			x.Data["completed"] = true
+			x.Put("completed", true)
 		},
 		Check: func(x *vs.Exec, p explore.Params) {
 			pr, _ := x.Data["pair"].(*grpcPair)
